@@ -163,7 +163,9 @@ FsStep(m0, e) ==
               THEN IF e.off = m1.files[j].w
                    THEN [m1 EXCEPT !.files[j].w = @ + e.len]
                    ELSE \* C11: the journal is append-only; a write anywhere else damages it
-                        ViolKeep(m1, "C11", "write_not_at_end", e, [ck |-> e.ck, off |-> e.off, w |-> m1.files[j].w])
+                        \* (the extent still grows to the end of this write: the bytes are accounted for)
+                        ViolKeep([m1 EXCEPT !.files[j].w = IF e.off + e.len > @ THEN e.off + e.len ELSE @],
+                                 "C11", "write_not_at_end", e, [ck |-> e.ck, off |-> e.off, w |-> m1.files[j].w])
               ELSE m1
     [] e.call \in {"fdatasync", "fsync"} ->
          IF j = 0 THEN m1
